@@ -86,9 +86,9 @@ def main():
                 conds.append(("release-t%d%s" % (t, rep), binary, {"RAYON_NUM_THREADS": str(t)}))
     skipped = []
     if True:
-        # quick: the other-hash-seed build only (a circuit whose key depends on HashMap iteration order
-        # is invisible inside one binary); thorough: also debug, AVX2 and AVX-512 builds
-        wanted = os.environ.get("VERIF_C19_VARIANTS", "debug,avx2,avx512,seed" if thorough else "seed").split(",")
+        # quick: the other-hash-seed build (a circuit whose key depends on HashMap iteration order is invisible
+        # inside one binary) and the AVX2 build (another packed field type); thorough: also debug and AVX-512 builds
+        wanted = os.environ.get("VERIF_C19_VARIANTS", "debug,avx2,avx512,seed" if thorough else "seed,avx2").split(",")
         flags = cpu_flags()
         if "debug" in wanted:
             dbg = c.build_harness("debug")
@@ -144,7 +144,7 @@ def main():
                     same = art in rd and art in od and rd[art] == od[art]
                     cf.write("c19 %s %s %s = %d\n" % (art, ref, other, 1 if same else 0))
                     ncmp += 1
-                    fam = art.split("/")[0] if art.split("/")[0] in ("merkle", "fft", "batch", "polybatch", "stark") \
+                    fam = art.split("/")[0] if art.split("/")[0] in ("merkle", "fft", "batch", "polybatch", "stark", "packed") \
                         else "circuit:" + art.split("/")[-1]
                     dist[fam] = dist.get(fam, 0) + 1
                     if not same:
